@@ -139,6 +139,14 @@ static int run_job(job_t *J)
     }
     old_pr = intMalloc(n); for (i = 0; i < n; ++i) old_pr[i] = perm_r[i];
     use_old = (o.usepr == YES);
+#ifdef _OPENMP
+    /* the OpenMP runtime keeps its pool threads after a parallel region: create the pool first, so that the thread count
+       before / after the call compares what the library itself leaves behind */
+    { int nt = J->P > 16 ? J->P : 16; static volatile int touched;
+#pragma omp parallel num_threads(nt)
+      { __sync_fetch_and_add(&touched, 1); }
+    }
+#endif
     thr_before = vrt_thread_count();
     vrt_perturb(J->pert, (unsigned) J->seed);
     if (J->focus[0]) vrt_perturb_focus(J->focus, J->focuspct ? J->focuspct : 50, J->focusus ? J->focusus : 300);
